@@ -93,7 +93,8 @@ def cfg_cases(draw):
             k = len(c["interfaces"])
             c["ens_engs"] = [["engine"] for _ in range(k)]
             if k:
-                c["ens_engs"][draw(st.integers(0, k - 1))] = [draw(st.sampled_from(["engine2", "nope"]))]
+                # one ensemble names an engine without a section - alone, or after / before / between defined ones
+                c["ens_engs"][draw(st.integers(0, k - 1))] = draw(st.sampled_from([["engine2"], ["nope"], ["engine", "nope"], ["nope", "engine"], ["engine", "engine", "ghost"]]))
         elif m == "engine-ok":
             k = len(c["interfaces"])
             c["ens_engs"] = [[draw(st.sampled_from(["engine", "engb"]))] for _ in range(k)]
